@@ -671,4 +671,45 @@ theorem fieldsAscii_nonempty : ∀ (s : Str) (t : Str), t ∈ fieldsAscii s → 
           · simp at h
             simp [h]
 
+def DemOK (st : SymOpts) : Prop :=
+  st.demangler = [] ∨ st.demangler = S "full" ∨ st.demangler = S "none" ∨ st.demangler = S "templates"
+
+theorem demangleOpt_demOK (st : SymOpts) (o : Str) (h : DemOK st) : DemOK (demangleOpt st o) := by
+  unfold demangleOpt
+  split
+  · rename_i hd
+    unfold DemOK
+    simp only []
+    rcases hd with hd | hd | hd <;> simp [hd]
+  · split
+    · exact h
+    · exact h
+
+theorem symOptStep_demOK (st st' : SymOpts) (o : Str) (h : DemOK st) (hs : symOptStep st o = some st') : DemOK st' := by
+  unfold symOptStep at hs
+  repeat' split at hs
+  all_goals first
+    | (cases hs; exact h)
+    | (cases hs; exact demangleOpt_demOK _ _ h)
+    | (cases hs; done)
+
+theorem symOptFold_demOK : ∀ (os : List Str) (st st' : SymOpts), DemOK st → symOptFold st os = some st' → DemOK st'
+  | [], st, st', h, hs => by simp [symOptFold] at hs; exact hs ▸ h
+  | o :: rest, st, st', h, hs => by
+    unfold symOptFold at hs
+    split at hs
+    · cases hs
+    · rename_i st1 h1
+      exact symOptFold_demOK rest st1 st' (symOptStep_demOK st st1 o h h1) hs
+
+theorem symbolizeMode_noPanic (lower : Str → Str) (mode : Str) : NoPanic (symbolizeMode lower mode) := by
+  unfold symbolizeMode
+  intro site
+  split
+  · simp
+  · rename_i st hst
+    have h := symOptFold_demOK _ _ _ (Or.inl rfl) hst
+    unfold demanglerModeToOptions
+    rcases h with h | h | h | h <;> simp [h] <;> (repeat' split) <;> simp_all
+
 end PV.Crash
